@@ -27,7 +27,7 @@ ASSUMPTIONS = [
     "representability of numbers at settings.decimals and numeric equality after re-import are not decided",
     "identifier names and single-line descriptions without '#' (property precondition)",
 ]
-FLOORS = {"T16": 1, "T15": 2, "T13": 3, "T14": 6, "T4": 30, "T5": 18, "T6": 23, "T7": 7, "T8": 6, "T9": 50, "T10": 20, "T11": 1}
+FLOORS = {"T17": 1, "T16": 1, "T15": 2, "T13": 3, "T14": 6, "T4": 30, "T5": 18, "T6": 23, "T7": 7, "T8": 6, "T9": 50, "T10": 20, "T11": 1}
 
 KIND_BY_ANNOTATION = [("bool", "boolean"), ("float", "to_float"), ("SNorm", "snorm"), ("TNorm", "tnorm"),
                       ("Defuzzifier", "defuzzifier"), ("Activation", "activation"), ("str", "raw")]
@@ -67,6 +67,7 @@ def run(check: Check) -> None:
     engine_threading(check)
     from .common import component_truthiness
 
+    number_formatting(check)
     component_truthiness(check, "T15")
     from .common import unused_parameters
 
@@ -1039,3 +1040,45 @@ def corpus(check: Check) -> None:
     check.require(not bad, "T12", "corpus/fll", f"{len(files)} shipped .fll files ({lines} lines) conform to the extracted reader tables"
                   if not bad else f"shipped FLL not accepted by the extracted tables: {bad[:3]}", "fuzzylite/examples", {"files": len(files), "lines": lines},
                   exhaustive=True, cases=lines)
+
+
+# ------------------------------------------------------------------------------------------------ T17 number formatting
+def number_formatting(check: Check) -> None:
+    """T17: every number that `Op.str` formats itself is printed fixed-point with exactly `settings.decimals` decimals, read when the
+    number is printed: each formatted value with a format specification inside Op.str has the specification `.{settings.decimals}f`
+    (also through a temporary), and the fallback for higher-dimensional arrays passes precision=settings.decimals, floatmode="fixed".
+    (Rule weights, term parameters, ranges and defaults all reach the FLL text through this function; the importer reads them back with
+    the library float, so a value survives the round trip iff it is representable at that number of decimals.)"""
+    p = check.program
+    fn = p.func("Operation.str")
+    check.analysed(fn)
+    r = Resolver(p, fn)
+    DEC = ("attr", ("global", "fuzzylite.library.settings"), "decimals")
+    n_specs = 0
+    bad = []
+    for n in r.cfg.stmt_nodes():
+        if n.copy:
+            continue
+        for e in r.cfg.exprs_of(n):
+            for x in ast.walk(e):
+                if isinstance(x, ast.FormattedValue) and x.format_spec is not None:
+                    n_specs += 1
+                    parts = x.format_spec.values if isinstance(x.format_spec, ast.JoinedStr) else []
+                    consts = "".join(q.value for q in parts if isinstance(q, ast.Constant) and isinstance(q.value, str))
+                    vals = [q for q in parts if isinstance(q, ast.FormattedValue)]
+                    ok = consts.replace("0", "", 1) == ".f" and len(vals) == 1 and r.term(vals[0].value, n) == DEC and vals[0].format_spec is None
+                    if not ok:
+                        bad.append((n, unparse(x)))
+                elif isinstance(x, ast.Call) and isinstance(x.func, ast.Attribute) and x.func.attr in ("array2string", "format_float_positional"):
+                    n_specs += 1
+                    kw = {k.arg: r.term(k.value, n) for k in x.keywords if k.arg}
+                    if kw.get("precision") != DEC or (x.func.attr == "array2string" and kw.get("floatmode") != ("const", "fixed")):
+                        bad.append((n, unparse(x)))
+                elif isinstance(x, ast.Call) and isinstance(x.func, ast.Name) and x.func.id in ("format", "round") and len(x.args) >= 1:
+                    n_specs += 1
+                    bad.append((n, unparse(x)))  # another formatting route: not the fixed-point specification
+    check.require(n_specs >= 2 and not bad, "T17", "Operation.str/fixed-point-decimals",
+                  f"all {n_specs} formatted numbers in Op.str use `.{{settings.decimals}}f` (read at call time)" if n_specs >= 2 and not bad else
+                  (f"`{bad[0][1][:70]}` does not format with exactly settings.decimals fixed-point decimals: numbers printed on this path are written with "
+                   "another precision than the one the round trip is stated for" if bad else "Op.str formats no number itself any more"),
+                  loc(fn, bad[0][0] if bad else None))
